@@ -434,6 +434,44 @@ def real_parsers_fn():
     return fn
 
 
+def chunk_parents_by_content_fn():
+    """two sequence chunks built by io.parser.seq_chunk_to_parent (and two chromosomes by seq_to_parent) for the same name / window / strand whose sequences
+    differ in ONE base anywhere (first, interior, last): features built on each extract THEIR OWN bases, in either construction order, and so do the chunks
+    AnnotationCollection.query_by_position cuts out of the two chromosomes"""
+
+    def fn(e, d, where, order):
+        e, d, where, order = concretize(e, d, where, order)
+        with untraced():
+            from inscripta.biocantor.gene.collections import AnnotationCollection
+            from inscripta.biocantor.gene.feature import FeatureInterval, FeatureIntervalCollection
+            from inscripta.biocantor.io.parser import seq_chunk_to_parent, seq_to_parent
+
+            n = 2 ** e + d
+            unit = "ACGTTGCAAGCTTAGGCTAACGTCA"
+            base = (unit * (n // len(unit) + 1))[:n]
+            pos = [0, 33, n // 2, n - 34, n - 1][where] % n
+            other = base[:pos] + ("A" if base[pos] != "A" else "C") + base[pos + 1:]
+            w = 1000
+            seqs = [base, other] if order == 0 else [other, base]
+            ok = True
+            feats = []
+            for sq in seqs:
+                par = seq_chunk_to_parent(sq, "chr1", w, w + n)
+                f = FeatureInterval([w], [w + n], PLUS, guid=5, parent_or_seq_chunk_parent=par)
+                feats.append(f)
+                ok = ok and str(f.get_spliced_sequence()) == sq
+            ok = ok and all(str(f.get_spliced_sequence()) == sq for f, sq in zip(feats, seqs))
+            for sq in seqs:
+                whole = seq_to_parent(sq, seq_id="chr1")
+                fc = FeatureIntervalCollection([FeatureInterval([0], [n], PLUS, guid=6, parent_or_seq_chunk_parent=whole)], guid=7, parent_or_seq_chunk_parent=whole)
+                coll = AnnotationCollection(feature_collections=[fc], sequence_name="chr1", parent_or_seq_chunk_parent=whole)
+                sub = coll.query_by_position(0, n, completely_within=False)
+                ok = ok and str(list(sub.iter_children())[0].feature_intervals[0].get_spliced_sequence()) == sq
+            return ok
+
+    return fn
+
+
 def parsers_importable():
     try:
         import inscripta.biocantor.io.parser  # noqa: F401
@@ -529,6 +567,14 @@ def obligations(tier):
                            bounds="every placement pair on a 12-letter tagged sequence (inner length <= 6), every child interval, both child strands",
                            examples=[dict(ps=2, pe=11, qs=1, qe=6)]))
     if parsers_importable():
+        out.append(Obl("io_parser_parents_by_content", chunk_parents_by_content_fn(), dict(e=int, d=int, where=int, order=int),
+                       lambda e, d, where, order: 5 <= e and e <= (9 if quick else 14) and -1 <= d and d <= 1 and 0 <= where and where <= 4 and 0 <= order and order <= 1,
+                       budget=900, cost=60,
+                       desc="io.parser.seq_chunk_to_parent / seq_to_parent for two sequences of the same name, window, strand and length (31..%d nt) that differ in one "
+                            "base (first / 34th / middle / 34th from the end / last): features on each, and the chunks a position query cuts out of each, spell their own "
+                            "sequence in either order" % (2 ** (9 if quick else 14) + 1),
+                       bounds="lengths 2^e-1..2^e+1 for e = 5..%d x 5 edit positions x 2 orders (closed by the solver)" % (9 if quick else 14),
+                       examples=[dict(e=7, d=1, where=2, order=0), dict(e=5, d=0, where=0, order=1)]))
         out.append(Obl("real_io_parser_constructors", real_parsers_fn(), dict(w=int), lambda w: w >= 0, budget=120, cost=5,
                        desc="io.parser.seq_chunk_to_parent / seq_to_parent build hierarchies through which lift-over gives chunk offsets and back",
                        bounds="chunk of length 12 at symbolic offset", examples=[dict(w=100)]))
